@@ -32,7 +32,15 @@ def cases(draw):
         "calibrate": draw(st.sampled_from(["no", "no", "streamline", "no-streamline"])),
         "frozen": draw(st.booleans()),
         "cycles": draw(st.lists(st.tuples(st.sampled_from(SERIALIZERS), st.sampled_from(TARGETS)), min_size=1, max_size=3)),
+        "partial": draw(st.integers(0, 5)) == 0,  # only every other eligible module is quantized (quantize(model, modules=[...]))
     }
+
+
+def eligible_subset(model, aq):
+    """every other Linear / Conv2d (/ LayerNorm when activations are quantized) in definition order, or None when that is all of them"""
+    kinds = (torch.nn.Linear, torch.nn.Conv2d) + ((torch.nn.LayerNorm,) if aq is not None else ())
+    el = [m for m in model.modules() if isinstance(m, kinds)]
+    return el[::2] if len(el) >= 2 else None
 
 
 def teq(x, y):
@@ -96,14 +104,19 @@ def _exec_history(case):
     wk = "q8" if wq.bits == 8 else "qbits"
     fz = "frozen" if case["frozen"] else "unfrozen"
     has_ln = fam == "mlp-ln"
-    out.fingerprint = [case["model"], case["wq"], case["aq"], case["dtype"], case["calibrate"], case["frozen"], case["cycles"]]
+    out.fingerprint = [case["model"], case["wq"], case["aq"], case["dtype"], case["calibrate"], case["frozen"], case["cycles"], bool(case.get("partial"))]
     out.klass = [f"fam-{fam}", case["wq"], f"act-{case['aq']}", case["dtype"], fz, f"calib-{case['calibrate']}"] + [f"ser-{s}" for s, _ in case["cycles"]] + [f"target-{t}" for _, t in case["cycles"]]
     grouped = wq.bits < 8
     out.nontrivial = grouped or "float8" in case["wq"] or (has_ln and aq is not None) or not case["frozen"] or len(case["cycles"]) >= 2
     if isinstance(fy, Raised) or not bool(torch.isfinite(fy).all()):
         out.discard = True
         return out
-    r = cut(quantize, model, weights=wq, activations=aq)
+    partial = bool(case.get("partial")) and eligible_subset(model, aq) is not None
+    if partial:
+        out.klass.append("partially-quantized")
+        r = cut(quantize, model, modules=eligible_subset(model, aq), weights=wq, activations=aq)
+    else:
+        r = cut(quantize, model, weights=wq, activations=aq)
     if isinstance(r, Raised):
         return out.fail(f"quantize-raises:{r.type}", r.text)
     if case["calibrate"] != "no" and aq is not None:
@@ -174,9 +187,9 @@ def _exec_history(case):
                 # everything that follows from them (the automatic group size of 8-bit weights is "none")
                 names = sorted(O.QTALL)
                 owq = O.QTALL[names[(names.index(case["wq"]) + 1 + case["seed"] % (len(names) - 1)) % len(names)]]
-                quantize(tgt, weights=owq, activations=aq)
+                quantize(tgt, weights=owq, activations=aq, **({"modules": eligible_subset(tgt, aq)} if partial else {}))
             elif target in ("same", "same-frozen", "same-assign"):
-                quantize(tgt, weights=wq, activations=aq)
+                quantize(tgt, weights=wq, activations=aq, **({"modules": eligible_subset(tgt, aq)} if partial else {}))
                 if target == "same-frozen" and fz == "frozen":
                     # a frozen model reloaded over an already frozen model of the same architecture
                     freeze(tgt)
@@ -184,6 +197,10 @@ def _exec_history(case):
                 quantize(tgt)
             r = cut(tgt.load_state_dict, given, assign=True) if target == "same-assign" else cut(tgt.load_state_dict, given)
         if isinstance(r, Raised):
+            if partial and target in ("default", "requantize") and r.type == "KeyError" and "weight_qtype" in r.text:
+                # the target quantizes EVERY eligible module, the saved model only some: the loader of a module that was not
+                # quantized in the saved model finds no '<name>.weight_qtype' entry
+                return out.fail(f"load/{target}/raises:KeyError+partially-quantized", f"{r.text} ({case['wq']}, act {case['aq']}, {fam}, {fz})")
             if lnq and target in ("default", "requantize"):
                 return out.fail(f"load/{target}/raises:{r.type}{lnq}", f"{r.text} ({case['wq']}, act {case['aq']}, {fam}, {fz})")
             return out.fail(f"{ttag}/raises:{r.type}", f"{r.text} ({case['wq']}, act {case['aq']}, {fam})")
